@@ -27,6 +27,19 @@ def parseCliCfg : List String → Option (Bool × Cfg × FS × List Lcov.Bytes)
           { files := files.map canonComps, dirs := dirs.map canonComps, cwd := canonComps cwd }, ins)
   | _ => none
 
+/-- `cli.runj O<p…>,<p…> B S P M I K E F W D X | i<hex> …` → the report of `Cli.runJ` (`O`: the
+canonical absolute paths of the entries below the source dir in walk order, as for
+`c11.partial.rewrite`) -/
+def handleCliRunJ : List String → String
+  | o :: rest =>
+    match argList o, parseCliCfg rest with
+    | some ord, some (branch, cfg, fs, ins) =>
+      match Cli.runJ cfg branch fs (ord.map canonComps) ins with
+      | .ok bytes => "ok " ++ toHex bytes
+      | .panic _ => "panic"
+    | _, _ => "bad-op"
+  | [] => "bad-op"
+
 def handleCliRun (args : List String) : String :=
   match parseCliCfg args with
   | some (branch, cfg, fs, ins) =>
@@ -34,5 +47,36 @@ def handleCliRun (args : List String) : String :=
     | .ok bytes => "ok " ++ toHex bytes
     | .panic _ => "panic"
   | none => "bad-op"
+
+/-- `c05.output_lcov K<hexpath>=<cov> …` → hex of the bytes `output_lcov` writes
+(`Cli.outputLcov`: the maps of a record may come in any order, the model sorts them) -/
+def handleOutputLcov (entries : List String) : String :=
+  let es : Option (List (List Nat × Cov)) := entries.mapM fun e =>
+    match (e.drop 1).toString.splitOn "=" with
+    | [k, cov] => do pure ((← fromHex k), (← parseCov cov))
+    | _ => none
+  match es with
+  | some es => toHex (Cli.outputLcov es)
+  | none => "bad-op"
+
+/-- `c05.output_lcov_dm T<hexmangled>=<hexdemangled>,… | K<hexpath>=<cov> …`: demangling on, the
+demangler given as a finite table (identity elsewhere) -/
+def handleOutputLcovDm (args : List String) : String :=
+  match args with
+  | t :: "|" :: entries =>
+    let tab : Option (List (List Nat × List Nat)) :=
+      if t.length ≤ 1 then some [] else
+      (((t.drop 1).toString.splitOn ",").mapM fun e =>
+        match e.splitOn "=" with
+        | [a, b] => do pure ((← fromHex a), (← fromHex b))
+        | _ => none)
+    let es : Option (List (List Nat × Cov)) := entries.mapM fun e =>
+      match (e.drop 1).toString.splitOn "=" with
+      | [k, cov] => do pure ((← fromHex k), (← parseCov cov))
+      | _ => none
+    match tab, es with
+    | some tab, some es => toHex (Cli.outputLcovDm (fun n => (AList.get? tab n).getD n) es)
+    | _, _ => "bad-op"
+  | _ => "bad-op"
 
 end Grcov.Drv
